@@ -84,6 +84,20 @@ EXPRS += [
     ("expr", "src/lib.rs", "new_chunk", ("let", "footer_ptr", 1), "new_chunk_footer_at", ("data", "new_size_without_footer")),
     ("expr", "src/lib.rs", "new_chunk", ("let", "ptr", 1), "new_chunk_finger", ("data", "new_size_without_footer")),
     ("expr", "src/lib.rs", "new_chunk", ("let", "allocated_bytes", 1), "new_chunk_allocated_bytes", ("new_size_without_footer",)),
+    # alloc_try_with / try_alloc_try_with: what is saved on entry, and on an Err from the initialiser
+    # the two tests and the two rewind targets (the saved values are inputs at that point)
+    ("expr", "src/lib.rs", "alloc_try_with", ("let", "rewind_footer", 1), "atw_saved_footer"),
+    ("expr", "src/lib.rs", "alloc_try_with", ("let", "rewind_ptr", 1), "atw_saved_ptr"),
+    ("expr", "src/lib.rs", "alloc_try_with", ("if", 1), "atw_is_last", ("inner_result_ptr", "rewind_footer", "rewind_ptr")),
+    ("expr", "src/lib.rs", "alloc_try_with", ("if", 2), "atw_same_chunk", ("inner_result_ptr", "rewind_footer", "rewind_ptr")),
+    ("expr", "src/lib.rs", "alloc_try_with", ("arg", "set_ptr", 1, 0), "atw_rewind_same_chunk", ("inner_result_ptr", "rewind_footer", "rewind_ptr")),
+    ("expr", "src/lib.rs", "alloc_try_with", ("arg", "set", 1, 0), "atw_rewind_new_chunk", ("inner_result_ptr", "rewind_footer", "rewind_ptr")),
+    ("expr", "src/lib.rs", "try_alloc_try_with", ("let", "rewind_footer", 1), "tatw_saved_footer"),
+    ("expr", "src/lib.rs", "try_alloc_try_with", ("let", "rewind_ptr", 1), "tatw_saved_ptr"),
+    ("expr", "src/lib.rs", "try_alloc_try_with", ("if", 1), "tatw_is_last", ("inner_result_ptr", "rewind_footer", "rewind_ptr")),
+    ("expr", "src/lib.rs", "try_alloc_try_with", ("if", 2), "tatw_same_chunk", ("inner_result_ptr", "rewind_footer", "rewind_ptr")),
+    ("expr", "src/lib.rs", "try_alloc_try_with", ("arg", "set_ptr", 1, 0), "tatw_rewind_same_chunk", ("inner_result_ptr", "rewind_footer", "rewind_ptr")),
+    ("expr", "src/lib.rs", "try_alloc_try_with", ("arg", "set", 1, 0), "tatw_rewind_new_chunk", ("inner_result_ptr", "rewind_footer", "rewind_ptr")),
     ("expr", "src/collections/vec.rs", "insert", ("assert", 1), "vec_insert_index_ok"),
     ("expr", "src/collections/vec.rs", "insert", ("if", 1), "vec_insert_must_grow"),
     ("expr", "src/collections/vec.rs", "insert", ("arg", "copy", 1, 0), "vec_insert_copy_src"),
@@ -139,6 +153,15 @@ FRAMES = [
      "ptr::write(footer_ptr,ChunkFooter{data,layout,prev:Cell::new(prev),ptr,allocated_bytes,},);Some(NonNull::new_unchecked(footer_ptr))"),
     ("src/lib.rs", "new_chunk", "new_chunk_asks_allocator", "letdata=alloc(layout);letdata=NonNull::new(data)?;"),
     ("src/lib.rs", "reset", "reset_empty_is_noop", "ifself.current_chunk_footer.get().as_ref().is_empty(){return;}"),
+    # *_try_with: the slot is reserved through (try_)alloc_with, the error value is read out once
+    ("src/lib.rs", "alloc_try_with", "atw_reserves_then_matches",
+     "letmutinner_result_ptr=NonNull::from(self.alloc_with(f));matchunsafe{inner_result_ptr.as_mut()}{Ok(t)=>Ok(unsafe{&mut*(tas*mut_)}),Err(e)=>unsafe{ifself.is_last_allocation(inner_result_ptr.cast()){"),
+    ("src/lib.rs", "alloc_try_with", "atw_error_read_once", "}}Err(ptr::read(eas*const_))},}"),
+    ("src/lib.rs", "try_alloc_try_with", "tatw_reserves_then_matches",
+     "letmutinner_result_ptr=NonNull::from(self.try_alloc_with(f)?);matchunsafe{inner_result_ptr.as_mut()}{Ok(t)=>Ok(unsafe{&mut*(tas*mut_)}),Err(e)=>unsafe{ifself.is_last_allocation(inner_result_ptr.cast()){"),
+    ("src/lib.rs", "try_alloc_try_with", "tatw_error_read_once", "}}Err(AllocOrInitError::Init(ptr::read(eas*const_)))},}"),
+    ("src/lib.rs", "alloc_slice_try_fill_with", "try_fill_releases_on_error",
+     "Err(e)=>{self.dealloc(base_ptr,layout);returnErr(e);}"),
     # Vec: what surrounds the located expressions of insert / remove
     ("src/collections/vec.rs", "insert", "vec_insert_grows_then_writes",
      "iflen==self.buf.cap(){self.reserve(1);}unsafe{{letp=self.as_mut_ptr().add(index);ptr::copy(p,p.offset(1),len-index);ptr::write(p,element);}self.set_len(len+1);}"),
